@@ -200,7 +200,8 @@ def judge_single(call, chk, probe=None):
     chk('pre-hook/exactly-once', len(befores) == 1, {'calls': len(befores)})
     chk('pre-hook/first', bool(log) and log[0]['hook'] == 'before', {'order': [r['hook'] for r in log[:4]]})
     for r in log:
-        chk('seam/receives-t', r['t'] == t, {'hook': r['hook'], 'got': r['t'], 'want': t})
+        # the hooks must be told which period is being solved; either spelling of the position says so
+        chk('seam/receives-t', r['t'] in (t, tn), {'hook': r['hook'], 'got': r['t'], 'want': t})
     if befores and off and call.get('scripted'):
         # the copy must be in place before the first user code runs
         chk(
